@@ -29,8 +29,9 @@ Ids(q) == Range(q)
 EmptyFn == [x \in {} |-> 0]
 
 ---------------------------------------------------------------------------
+(* (w8 is recorded by the Yata executor; traces of other recorders describe no text widths) *)
 UnitRec(u) == [o |-> u.o, ro |-> u.ro, cont |-> u.cont, sub |-> u.sub, par |-> u.par,
-               kind |-> u.kind, q |-> u.q]
+               kind |-> u.kind, q |-> u.q, w8 |-> IF "w8" \in DOMAIN u THEN u.w8 ELSE 1]
 Struct(e) == <<e.o, e.ro, e.cont, e.sub, e.par>>
 RealUnits(us) == {i \in 1..Len(us) : us[i].kind # "gc"}
 FreshIdx(us) == {i \in RealUnits(us) : us[i].id \notin DOMAIN E}
